@@ -21,6 +21,15 @@ impl<'a> RtcpPacketParser<'a> for App<'a> {
     fn parse(data: &'a [u8]) -> Result<Self, RtcpParseError> {
         parser::check_packet::<Self>(data)?;
 
+        // the padding must fit behind the fixed part, `data()` relies on it
+        let padding = parser::parse_padding(data).unwrap_or(0) as usize;
+        if Self::MIN_PACKET_LEN + padding > data.len() {
+            return Err(RtcpParseError::Truncated {
+                expected: Self::MIN_PACKET_LEN + padding,
+                actual: data.len(),
+            });
+        }
+
         Ok(Self { data })
     }
 
